@@ -131,7 +131,7 @@ def find_ad(obj, start_id):
     while stack:
         o = stack.pop()
         if isinstance(o, tuple):
-            if len(o) == 3 and o[0] == 'V' and o[1] == start_id:
+            if len(o) == 3 and o[0] in ('V', 'D') and o[1] == start_id:
                 for k, v in o[2]:
                     if k == 'additional_data':
                         return v
@@ -383,6 +383,8 @@ async def abody(inst, nid, kwargs):
 
 
 def default(inst, nid, kwargs):
+    # the engine passes additional_data under its str-enum key (equal to, but not printed as, the plain name)
+    kwargs = {str(getattr(k, 'value', k)): v for k, v in kwargs.items()}
     s = _session_for(inst)
     run = s.run_of(kwargs)
     s.ev('default_call', run, nid, kwargs=dict(kwargs))
